@@ -11,7 +11,7 @@
      serviceID, err := s.namespace.Reserve(name)      l.150  remote RegisterService: the name    NsStart(s, n)
                                                              is checked against staging and
                                                              services, lastID++, entry staged
-     service, err := NewService(object, activation)   l.156  user code (Activate), as long as    NsAct(s, ok)
+     service, err := NewService(object, activation)   l.157  user code (Activate), as long as    NsAct(s, ok)
                                                              it likes; an error: return err -
                                                              NOTHING is given back (Dev_NoCleanup)
      err = s.Router.Add(serviceID, service)           l.163  the service answers on s's end point
@@ -22,7 +22,7 @@
                                                              Router.Remove, return err - the
                                                              staged entry and the activated
                                                              object are left (Dev_NoCleanup)
-   Service.Terminate, bus/service.go l.186-201 + serviceTerminator l.18-23
+   Service.Terminate, bus/service.go l.186-201 + serviceTerminator l.18-23 (router.Remove first, l.20-21)
      objects: OnTerminate                                                                         SvcTerm(k)
      router.Remove(serviceID)                                first (Dev_RouterFirst): the service
                                                              is still listed and no longer answers
@@ -36,11 +36,11 @@
      the directory acts on it, the reply is lost.  The directory does NOT notice that a peer is gone
      (Dev_NoLease): the entries of a dead or cut-off server stay for ever.
    client session c, bus/session/session.go Proxy(name, 1)
-     info := s.findServiceName(name)                  l.139  the session's list = the directory's  PStart(c, n)
+     info := s.findServiceName(name)                  l.138  the session's list = the directory's  PStart(c, n)
                                                              list when the session is at rest
      c, err := s.client(info)                         l.57   pool hit, or dial the ADVERTISED      PDial(c)
                                                              end point (SelectEndPoint)
-     insert into the pool; metaProxy(c, id, 1)        l.88   the metaObject call on the service    PMeta(c)
+     insert into the pool; metaProxy(c, id, 1)        l.103  the metaObject call on the service    PMeta(c)
                                                              server: the router knows the id or not
    The harness can hold the goroutines exactly there: Activate is user code, the two requests pass a relay in front
    of the directory, the session has the gates session.client.enter / session.client.dialed.
@@ -72,6 +72,7 @@ Att == 1..MaxAtt            \* the NewService calls of a behaviour, in the order
 
 VARIABLES staging, services, lastID,          \* the directory: sets of [id, name, srv]; the counter (1 = the directory itself)
           assigned, readyIds, unregIds, evs,  \* history: identifiers handed out (sequence), made ready, unregistered while ready; events
+          reqs,                               \* history: the requests of the servers that REACHED the directory [s, act, id]
           up, link,                           \* server: not terminated; its connection to the directory is there
           routed,                             \* server -> attempts its router knows
           op,                                 \* server -> [pc: "idle" | "act" | "ena" | "unr", k]: the operation in progress
@@ -82,8 +83,8 @@ VARIABLES staging, services, lastID,          \* the directory: sets of [id, nam
           conn, stale,                        \* client -> servers it holds a pooled connection to: alive / dead and never removed
           ncut, nprox,
           out                                 \* outcome of the last command [e: "ok" | "err" | "pend" | "-", w: why, v]
-dvars == <<staging, services, readyIds, unregIds, evs>>
-vars == <<staging, services, lastID, assigned, readyIds, unregIds, evs, up, link, routed, op, att, activated, term, natt,
+dvars == <<staging, services, readyIds, unregIds, evs, reqs>>
+vars == <<staging, services, lastID, assigned, readyIds, unregIds, evs, reqs, up, link, routed, op, att, activated, term, natt,
           cl, conn, stale, ncut, nprox, out>>
 
 Out(e, w, v) == [e |-> e, w |-> w, v |-> v]
@@ -91,11 +92,12 @@ Idle == [pc |-> "idle", k |-> 0]
 NoAtt == [srv |-> 0, name |-> "", id |-> 0, st |-> "none"]
 NoCl == [pc |-> "idle", id |-> 0, srv |-> 0, dead |-> FALSE]
 Ev(k, id, n) == [k |-> k, id |-> id, n |-> n]
+Rq(s, act, id) == [s |-> s, act |-> act, id |-> id]          \* act: "register" | "ready" | "unregister"
 Max(S) == CHOOSE x \in S : \A y \in S : y <= x
 Min(S) == CHOOSE x \in S : \A y \in S : x <= y
 
 Init == /\ staging = {} /\ services = {} /\ lastID = 1
-        /\ assigned = <<>> /\ readyIds = {} /\ unregIds = {} /\ evs = <<>>
+        /\ assigned = <<>> /\ readyIds = {} /\ unregIds = {} /\ evs = <<>> /\ reqs = <<>>
         /\ up = [s \in Srv |-> TRUE] /\ link = [s \in Srv |-> TRUE]
         /\ routed = [s \in Srv |-> {}] /\ op = [s \in Srv |-> Idle]
         /\ att = [k \in Att |-> NoAtt] /\ activated = [k \in Att |-> FALSE] /\ term = [k \in Att |-> 0] /\ natt = 0
@@ -108,12 +110,12 @@ D == [st |-> staging, sv |-> services, evs |-> evs, rdy |-> readyIds, unr |-> un
 SetD(d) == /\ staging' = d.st /\ services' = d.sv /\ evs' = d.evs /\ readyIds' = d.rdy /\ unregIds' = d.unr
 
 Staged(d, id) == \E e \in d.st : e.id = id
-(* ServiceReady l.138-153 *)
+(* ServiceReady l.152-168 *)
 DReady(d, id) == IF Staged(d, id)
                    THEN LET e == CHOOSE x \in d.st : x.id = id IN
                         [d EXCEPT !.st = @ \ {e}, !.sv = @ \cup {e}, !.evs = Append(@, Ev("added", id, e.name)), !.rdy = @ \cup {id}]
                    ELSE d
-(* UnregisterService l.117-136 *)
+(* UnregisterService l.131-150 *)
 DUnreg(d, id) == IF \E e \in d.sv : e.id = id
                    THEN LET e == CHOOSE x \in d.sv : x.id = id IN
                         [d EXCEPT !.sv = @ \ {e}, !.evs = Append(@, Ev("removed", id, e.name)), !.unr = @ \cup {id}]
@@ -124,19 +126,22 @@ DUnreg(d, id) == IF \E e \in d.sv : e.id = id
 RECURSIVE DUnregAll(_, _)
 DUnregAll(d, ids) == IF ids = {} THEN d ELSE DUnregAll(DUnreg(d, Min(ids)), ids \ {Min(ids)})
 (* what qiloop's directory does NOT do (libqi's does): forget the services of a peer whose connection is gone *)
+RECURSIVE RqAll(_, _, _)
+RqAll(q, s, ids) == IF ids = {} THEN q ELSE RqAll(Append(q, Rq(s, "unregister", Min(ids))), s, ids \ {Min(ids)})
 DLease(d, s) == IF Dev_NoLease THEN d ELSE DUnregAll(d, {e.id : e \in {x \in d.st \cup d.sv : x.srv = s}})
 
 Entries == staging \cup services
-Visible == IF Dev_LookupStaged THEN Entries ELSE services            \* Service(name) l.83-92, Services() l.100-109
+Visible == IF Dev_LookupStaged THEN Entries ELSE services            \* Service(name) l.80-89, Services() l.97-106; RegisterService l.108-129
 RoutedIds(s) == {att[k].id : k \in routed[s]}
 
 -----------------------------------------------------------------------------
 (* NewService returns an error after Reserve: what the code gives back *)
-Fail(s, k, d, wasActivated, linkok, why) ==
+Fail(s, k, d, q, wasActivated, linkok, why) ==
   /\ routed' = [routed EXCEPT ![s] = @ \ {k}]                                   \* Router.Remove (l.171) where it was added
   /\ IF Dev_NoCleanup
-       THEN /\ SetD(d) /\ UNCHANGED term
+       THEN /\ SetD(d) /\ reqs' = q /\ UNCHANGED term
        ELSE /\ SetD(IF linkok THEN DUnreg(d, att[k].id) ELSE d)
+            /\ reqs' = IF linkok THEN Append(q, Rq(s, "unregister", att[k].id)) ELSE q
             /\ term' = [term EXCEPT ![k] = IF wasActivated THEN @ + 1 ELSE @]
   /\ att' = [att EXCEPT ![k].st = "err"]
   /\ op' = [op EXCEPT ![s] = Idle]
@@ -146,6 +151,7 @@ Fail(s, k, d, wasActivated, linkok, why) ==
 NsStart(s, n) ==
   /\ up[s] /\ op[s].pc = "idle" /\ natt < MaxAtt
   /\ natt' = natt + 1
+  /\ reqs' = IF link[s] THEN Append(reqs, Rq(s, "register", 0)) ELSE reqs
   /\ LET k == natt + 1
          taken == \E e \in (IF Dev_StagingUnchecked THEN services ELSE Entries) : e.name = n
          id == IF Dev_IdReuse THEN Max({e.id : e \in Entries} \cup {1}) + 1 ELSE lastID + 1
@@ -167,10 +173,10 @@ NsAct(s, ok) ==
   /\ LET k == op[s].k
          id == att[k].id
      IN IF ~ok
-          THEN Fail(s, k, D, FALSE, link[s], "refused") /\ UNCHANGED activated
+          THEN Fail(s, k, D, reqs, FALSE, link[s], "refused") /\ UNCHANGED activated
           ELSE /\ activated' = [activated EXCEPT ![k] = TRUE]
-               /\ IF id \in RoutedIds(s) THEN Fail(s, k, D, TRUE, link[s], "idused")
-                  ELSE IF ~link[s] THEN Fail(s, k, D, TRUE, FALSE, "link")
+               /\ IF id \in RoutedIds(s) THEN Fail(s, k, D, reqs, TRUE, link[s], "idused")
+                  ELSE IF ~link[s] THEN Fail(s, k, D, reqs, TRUE, FALSE, "link")
                   ELSE /\ routed' = [routed EXCEPT ![s] = @ \cup {k}]
                        /\ att' = [att EXCEPT ![k].st = "ena"]
                        /\ op' = [op EXCEPT ![s] = [pc |-> "ena", k |-> k]]
@@ -185,13 +191,13 @@ Deliver(s) ==
          id == att[k].id
      IN IF op[s].pc = "ena"
           THEN IF Staged(D, id)
-                 THEN /\ SetD(DReady(D, id))
+                 THEN /\ SetD(DReady(D, id)) /\ reqs' = Append(reqs, Rq(s, "ready", id))
                       /\ att' = [att EXCEPT ![k].st = "ok"]
                       /\ op' = [op EXCEPT ![s] = Idle]
                       /\ out' = Out("ok", "", id)
                       /\ UNCHANGED <<routed, term>>
-                 ELSE Fail(s, k, D, TRUE, TRUE, "notstaged")
-          ELSE /\ SetD(DUnreg(D, id))
+                 ELSE Fail(s, k, D, Append(reqs, Rq(s, "ready", id)), TRUE, TRUE, "notstaged")
+          ELSE /\ SetD(DUnreg(D, id)) /\ reqs' = Append(reqs, Rq(s, "unregister", id))
                /\ att' = [att EXCEPT ![k].st = "gone"]
                /\ routed' = [routed EXCEPT ![s] = @ \ {k}]
                /\ op' = [op EXCEPT ![s] = Idle]
@@ -209,17 +215,19 @@ Cut(s, mode) ==
      IN CASE op[s].pc \in {"idle", "act"} ->
                /\ mode = "idle"
                /\ SetD(DLease(D, s)) /\ out' = Out("-", "", 0)
-               /\ UNCHANGED <<routed, term, att, op>>
+               /\ UNCHANGED <<reqs, routed, term, att, op>>
           [] op[s].pc = "ena" ->
                /\ mode \in {"req", "rep"}
-               /\ LET d1 == IF mode = "rep" THEN DReady(D, id) ELSE D IN
+               /\ LET d1 == IF mode = "rep" THEN DReady(D, id) ELSE D
+                      q1 == IF mode = "rep" THEN Append(reqs, Rq(s, "ready", id)) ELSE reqs IN
                   IF Dev_EnableErrorIgnored
-                    THEN /\ SetD(DLease(d1, s)) /\ att' = [att EXCEPT ![k].st = "ok"] /\ op' = [op EXCEPT ![s] = Idle]
+                    THEN /\ SetD(DLease(d1, s)) /\ reqs' = q1 /\ att' = [att EXCEPT ![k].st = "ok"] /\ op' = [op EXCEPT ![s] = Idle]
                          /\ out' = Out("ok", "", id) /\ UNCHANGED <<routed, term>>
-                    ELSE Fail(s, k, DLease(d1, s), TRUE, FALSE, "link")
+                    ELSE Fail(s, k, DLease(d1, s), q1, TRUE, FALSE, "link")
           [] op[s].pc = "unr" ->
                /\ mode \in {"req", "rep"}
                /\ LET d1 == IF mode = "rep" THEN DUnreg(D, id) ELSE D IN SetD(DLease(d1, s))
+               /\ reqs' = IF mode = "rep" THEN Append(reqs, Rq(s, "unregister", id)) ELSE reqs
                /\ att' = [att EXCEPT ![k].st = "gone"]
                /\ routed' = [routed EXCEPT ![s] = @ \ {k}]
                /\ op' = [op EXCEPT ![s] = Idle]
@@ -250,6 +258,7 @@ SrvTerm(s) ==
   /\ LET live == routed[s] IN
      /\ term' = [k \in Att |-> IF k \in live THEN term[k] + 1 ELSE term[k]]
      /\ SetD(IF link[s] THEN DUnregAll(D, {att[k].id : k \in live}) ELSE D)
+     /\ reqs' = IF link[s] THEN RqAll(reqs, s, {att[k].id : k \in live}) ELSE reqs
      /\ att' = [k \in Att |-> IF k \in live THEN [att[k] EXCEPT !.st = "gone"] ELSE att[k]]
   /\ up' = [up EXCEPT ![s] = FALSE]
   /\ routed' = [routed EXCEPT ![s] = {}]
@@ -306,6 +315,9 @@ Next == \/ \E s \in Srv : \/ \E n \in Names : NsStart(s, n)
         \/ \E c \in Clients : \/ \E n \in Names : PStart(c, n)
                               \/ PDial(c) \/ PMeta(c)
 Spec == Init /\ [][Next]_vars
+(* the exhaustive runs leave out what neither an action nor an invariant reads: the request history and the last outcome *)
+MCView == <<staging, services, lastID, assigned, readyIds, unregIds, evs, up, link, routed, op, att, activated, term, natt,
+            cl, conn, stale, ncut, nprox>>
 
 -----------------------------------------------------------------------------
 TypeOK == /\ \A e \in Entries : e.id \in 2..(MaxAtt + 1) /\ e.name \in Names /\ e.srv \in Srv
